@@ -31,7 +31,8 @@ def extra(sc: dict, r: dict) -> list:
             t_done = max(e["t"] for e in ends) - r["t0"]
             last_arrival = max([j["at"] for j in sc["jobs"]] + [0])
             total = sum(j["dur"] for j in sc["jobs"])
-            bound = last_arrival + total // sc["limit"] + max(j["dur"] for j in sc["jobs"]) + 3000 * len(sc["jobs"]) + 50_000
+            bound = (last_arrival + total // sc["limit"] + max(j["dur"] for j in sc["jobs"]) + 3000 * len(sc["jobs"]) + 50_000
+                     + int(2 * sc.get("pause_round_trip", 0.0) * 1_000_000) * len(sc["jobs"]))
             if t_done > bound:
                 bad.append(("worker_stalled", f"workload finished after {t_done} us, list-scheduling bound {bound} us"))
     return bad
@@ -42,6 +43,10 @@ def run(ctx: Ctx) -> Result:
     res = Result(rule=RULE)
     res.relations = ["runner_obs: the recorded event trace is accepted by Runner.step_ev and ends in the observed counters and leftovers"]
     scs = [c10.gen(rng, with_limit=rng.random() < 0.2) for _ in range(ctx.scale(260, 4000))]
+    for sc in scs:
+        if sc["M"] is None and rng.random() < 0.3:
+            # a consumer whose pause() / unpause() are round trips (as RabbitMQ's basic.qos): slots free while they are on the wire
+            sc["pause_round_trip"] = rng.choice([0.0005, 0.005, 0.05])
     for sc in scs:
         if sc["M"] is None:
             # arrivals exactly when slots free: at multiples of the common duration
